@@ -205,6 +205,12 @@ impl Memo {
         // Hash operator-specific data
         self.hash_operator(&expr.op, &mut hasher);
 
+        // Two operators are the same expression only if all their arguments agree (predicates, projected
+        // expressions, join conditions, sort keys ...): the fields hashed above leave most of them out, which
+        // merged e.g. two different filters over the same table into one group. The derived `Debug` output
+        // is a complete structural rendering of the operator.
+        format!("{:?}", expr.op).hash(&mut hasher);
+
         // Hash children (order matters)
         for child in &expr.children {
             child.0.hash(&mut hasher);
